@@ -1676,7 +1676,8 @@ def run(chk):
             if id(spec) in names:
                 stats.setdefault("boundary_values", {})[names[id(spec)]] = (
                     "raised " + rec["exc"][0] if rec["exc"] is not None else
-                    f"{len(rec['ts'])} time stamps from {float(rec['ts'][0]):.6g}" + (f"; {'; '.join(f_[:80] for f_ in fails)}" if fails else ""))
+                    (f"{len(rec['ts'])} time stamps from {float(rec['ts'][0]):.6g}" if len(rec["ts"]) else "no time stamps")
+                    + (f"; {'; '.join(f_[:80] for f_ in fails)}" if fails else ""))
             if rec["exc"] is None:
                 stats["completed"] += 1
             else:
